@@ -34,6 +34,8 @@ def run(ctx):
     ambiguity(ctx)
     assembly(ctx)
     export_names(ctx)
+    access_forms_agree(ctx)
+    spread_export_effect(ctx)
     liveness(ctx)
 
 
@@ -322,6 +324,109 @@ def export_names(ctx):
     # spread export skips names already exported
     ge = calls_to(e, "CompositionGraph::get_export")
     ctx.ob("R04.2", "spread-export-skips-exported", bool(ge), "spread exports skip names that are already exported" if ge else "spread export does not test get_export(name)", site=e.span)
+
+
+def arm_errors(ctx, f, adt_suffix, depth=2):
+    """variant -> set of resolution::Error variants that can be built in the arm's exclusive region, in the closures created
+    there and in the local functions called from there (depth-limited)."""
+    db, prov = ctx.db, ctx.prov
+    cfg = CFG(f)
+
+    def errs_of(g, seen, d):
+        out = set()
+        if g.id in seen or d < 0:
+            return out
+        seen.add(g.id)
+        for h in db.with_closures(g):
+            for st in h.stmts():
+                if st.rv.k == "agg" and (st.rv.j.get("adt") or "").endswith("resolution::Error"):
+                    out.add(st.rv.j.get("variant"))
+            for t in h.calls():
+                c = db.fns.get(t.path or "")
+                if c is not None and c.id.startswith(RES) and c.id != f.id:
+                    out |= errs_of(c, seen, d - 1)
+        return out
+    res = {}
+    for bidx, adt, arms, other in tables.switch_arms(db, prov, f):
+        if not adt.endswith(adt_suffix):
+            continue
+        for v, tg in arms:
+            mine = cfg.reach_from(tg)
+            others = set()
+            for v2, tg2 in arms:
+                if tg2 != tg:
+                    others |= cfg.reach_from(tg2)
+            region = mine - others
+            out = set()
+            for b in region:
+                blk = cfg.blocks[b]
+                for st in blk.stmts:
+                    if st.rv.k == "agg" and (st.rv.j.get("adt") or "").endswith("resolution::Error"):
+                        out.add(st.rv.j.get("variant"))
+                    if st.rv.k == "agg" and "closure" in st.rv.j:
+                        c = db.fns.get(st.rv.j["closure"])
+                        if c is not None:
+                            out |= errs_of(c, set(), depth)
+                t = blk.term
+                if t.k == "call":
+                    c = db.fns.get(t.path or "")
+                    if c is not None and c.id.startswith(RES) and c.id != f.id:
+                        out |= errs_of(c, set(), depth)
+                    for fa in t.fnargs:
+                        c = db.fns.get(strip_generics(fa))
+                        if c is not None:
+                            out |= errs_of(c, set(), depth)
+            res[v] = out
+    return res
+
+
+def access_forms_agree(ctx):
+    """R04.2: `x.name` and `x["name"]` are two spellings of the same selection: both arms of the postfix dispatch can report the
+    same diagnostics (a non-instance is NotAnInstance, a missing export MissingInstanceExport) — a check that only one arm
+    performs (or inherits from a helper) gives the other form the wrong diagnostic."""
+    db = ctx.db
+    f = db.fns.get(RES + "postfix_expr")
+    if f is None:
+        ctx.lost("R04.2", RES + "postfix_expr")
+        return
+    ctx.touch(f)
+    e = arm_errors(ctx, f, "PostfixExpr")
+    a, b = e.get("Access"), e.get("NamedAccess")
+    ok = a is not None and b is not None and a == b and {"NotAnInstance", "MissingInstanceExport"} <= a
+    ctx.ob("R04.2", "access-forms-agree", ok,
+           "both access forms report NotAnInstance / MissingInstanceExport" if ok else
+           "the two access forms differ in the diagnostics they can report: `.name` %s, `[\"name\"]` %s — one form of a non-instance access gets the wrong diagnostic"
+           % (sorted(a or ()), sorted(b or ())), site=f.span)
+
+
+def spread_export_effect(ctx):
+    """R04.2: `export x...;` is an error when *this statement* exported nothing — the SpreadExportNoEffect test reads a value that
+    the export loop writes after a successful export_item (a flag / counter), not a property of the instance alone (an
+    instance whose exports are all exported already has exports, yet the spread is ineffective)."""
+    db, prov = ctx.db, ctx.prov
+    e = db.fn(RES + "export_statement")
+    cfg = CFG(e)
+    errs = [st for st in e.stmts() if st.rv.k == "agg" and st.rv.j.get("variant") == "SpreadExportNoEffect"]
+    items = calls_to(e, "AstResolver::export_item")
+    loop_items = [t for t in items if cfg.reaches(t.bb, t.bb)]
+    ok = False
+    why = "SpreadExportNoEffect is not guarded by a value written in the export loop"
+    d = prov.defs(e)
+    for st in errs:
+        for b in e.blocks:
+            if b.term.k != "switch" or not cfg.dominates(b.idx, st.bb):
+                continue
+            sl = prov.slice(e, Operand(b.term.j["discr"]))
+            for fid, l in sl.locals:
+                if fid != e.id:
+                    continue
+                for kind, site in d.defs.get(l, ()):
+                    if kind == "stmt" and any(cfg.dominates(t.bb, site.bb) or (cfg.reaches(t.bb, site.bb) and cfg.reaches(site.bb, t.bb)) for t in loop_items) \
+                            and cfg.reaches(site.bb, site.bb):
+                        ok = True
+                        why = "reported when the export loop recorded no successful export (`%s`)" % (e.local_name(l) or "_%d" % l)
+    ctx.ob("R04.2", "spread-export-effect", ok and bool(loop_items), why if ok else
+           why + ": an instance whose exports are all already exported makes `export x...;` a silent no-op instead of an error", site=e.span)
 
 
 def liveness(ctx):
